@@ -39,16 +39,6 @@ static EVP_PKEY *g_signkey;
 
 typedef struct { unsigned char *p; size_t n; } blob;
 
-/*
- * NOTE on UBSan: br_asn1_encode_uint() calls memcpy(dst, NULL, 0) for the
- * version field of every RSAPrivateKey it writes (asn1enc.c). With the
- * framework's -fno-sanitize-recover build this aborts the process at the
- * first RSA encoding. props/c18.py therefore links this harness with the
- * repository's own src/x509/asn1enc.c recompiled with
- * -fno-sanitize=nonnull-attribute (all other ASan/UBSan checks stay armed),
- * and runs the tiny probe h_keyenc_ub (standard build) which reports the
- * memcpy(…, NULL, 0) through the normal sanitizer path.
- */
 
 static void
 strip(const unsigned char **p, size_t *n)
